@@ -118,7 +118,7 @@ func LoopScen(r *fw.Rand) *Scenario {
 	}
 
 	// resumes: mostly the type the wait accepts, with a few that it rejects
-	n := fw.Pick(r, []int{5, 15, 40, 70, 120})
+	n := []int{5, 15, 40, 70, 120}[r.Weighted([]int{3, 3, 3, 2, 1})]
 	var rs []M
 	for i := 0; i < n; i++ {
 		on := time.Date(2018, 7, 2, 10, 0, 0, 500000000, time.UTC).Add(time.Duration(i) * 7 * time.Hour).Format("2006-01-02T15:04:05.0Z")
